@@ -54,4 +54,5 @@ var Aux = map[string]func(args []string) int{
 	"c18hist":  c18.Aux,
 	"c17race":  c17.Aux,
 	"c11race":  c11.Aux,
+	"c06ref":   c06.Aux,
 }
